@@ -246,10 +246,21 @@ impl<'tcx> Cx<'tcx> {
                 .f("un", J::Str(format!("{:?}", op)))
                 .f("a", self.operand(owner, body, a))
                 .done(),
-            Rvalue::Discriminant(p) => J::obj()
-                .f("discr", self.place(body, p))
-                .f("ty", J::Str(ty_str(p.ty(&body.local_decls, tcx).ty)))
-                .done(),
+            Rvalue::Discriminant(p) => {
+                let pty = p.ty(&body.local_decls, tcx).ty;
+                let mut o = J::obj().f("discr", self.place(body, p)).f("ty", J::Str(ty_str(pty)));
+                if let ty::Adt(def, _) = pty.kind() {
+                    if def.is_enum() && def.variants().len() <= 64 {
+                        let mut vs = Vec::new();
+                        for (vi, v) in def.variants().iter_enumerated() {
+                            let d = def.discriminant_for_variant(tcx, vi).val;
+                            vs.push((format!("{}", d), J::Str(v.name.to_string())));
+                        }
+                        o = o.f("variants", J::Obj(vs));
+                    }
+                }
+                o.done()
+            }
             Rvalue::CopyForDeref(p) => J::obj().f("use", J::obj().f("copy", self.place(body, p)).done()).done(),
             Rvalue::Aggregate(kind, ops) => {
                 let opsj: Vec<J> = ops.iter().map(|o| self.operand(owner, body, o)).collect();
